@@ -558,6 +558,9 @@ class World:
                 'form': form, 'same_plate': same_plate, 'overlap': overlap}
         pobj = self.objs[src]
         s_slice = pobj[ssel]
+        if len(set(sidx)) == pobj.wells.size and not same_plate and rng.random() < 0.5:
+            s_slice = pobj          # a whole Plate passed directly as the source
+            step['src'] = [src, None]
         d_slice = (pobj if same_plate else pd)[dsel]
         res, exc = self.do('Plate.transfer', step, lambda: pp.Plate.transfer(s_slice, d_slice, q))
         if res is not None:
